@@ -117,6 +117,7 @@ type FnCtx struct {
 	noDecreases map[int]bool
 	mapRangeLoops int
 	inlineStack   []string
+	sweepStrictClosures bool
 	keepRet       bool
 	pathsToReturn int
 	yieldElem string
